@@ -165,7 +165,7 @@ pub fn generate(seed: u64, idx: u64) -> Scenario {
     let mut ends = vec![];
     let mut off = 0;
     for st in &sc.script {
-        off += crate::h::client::frame_of(&st.op).len();
+        off += crate::h::client::frame_of(st).len();
         ends.push(off);
     }
     sc.segmentation = pick_segmentation(&mut rng, &stream, &ends);
